@@ -304,14 +304,16 @@ func staleSnapshot(pool ammtypes.Pool, how string) ammtypes.Pool {
 	}
 	snap := pool
 	snap.PoolAssets = append([]ammtypes.PoolAsset{}, pool.PoolAssets...)
-	num, den := int64(7), int64(10)
+	// not a uniform scaling: the first asset moved by 30 %, the share supply by about half of that - the pool as it was
+	// before / after a single-sided operation, i.e. with a DIFFERENT share price than the live pool
+	numA, numS, den := int64(70), int64(85), int64(100)
 	if how == "larger" {
-		num, den = 13, 10
+		numA, numS = 130, 114
 	}
-	for i := range snap.PoolAssets {
-		snap.PoolAssets[i].Token.Amount = snap.PoolAssets[i].Token.Amount.MulRaw(num).QuoRaw(den).AddRaw(1)
+	if len(snap.PoolAssets) > 0 {
+		snap.PoolAssets[0].Token.Amount = snap.PoolAssets[0].Token.Amount.MulRaw(numA).QuoRaw(den).AddRaw(1)
 	}
-	snap.TotalShares.Amount = snap.TotalShares.Amount.MulRaw(num).QuoRaw(den).AddRaw(1)
+	snap.TotalShares.Amount = snap.TotalShares.Amount.MulRaw(numS).QuoRaw(den).AddRaw(1)
 	return snap
 }
 
